@@ -1,11 +1,19 @@
+pub mod c01;
 pub mod c18;
+pub mod c19;
+pub mod pool_hist;
+pub mod poolprops;
 
 use crate::framework::*;
 use serde_json::Value;
 
 pub fn run(prop: &str, tier: Tier, seed: u64) -> Option<PropReport> {
     Some(match prop {
+        "C01" => c01::check(tier, seed),
         "C18" => c18::check(tier, seed),
+        "C19" => c19::check(tier, seed),
+        "SURVEY19" => c19::check_survey(tier, seed),
+        p if p.starts_with("DEV") => poolprops::check_dev(tier, seed, &p[3..].to_lowercase()),
         _ => return None,
     })
 }
@@ -14,6 +22,16 @@ pub fn run(prop: &str, tier: Tier, seed: u64) -> Option<PropReport> {
 fn replay_engine(engine: &str, case: &Value) -> Option<Result<Result<(), String>, String>> {
     Some(match engine {
         "epoch-arith" => replay_case(&c18::C18, case),
+        "stableswap-quote-vs-exact" => replay_case(&c19::C19Swap { survey: false }, case),
+        "stableswap-D-vs-exact" => replay_case(&c19::C19D { survey: false }, case),
+        "pool-history-backing" => replay_case(&c01::engine(), case),
+        "pool-history-lp-value" => replay_case(&poolprops::c02_hist(), case),
+        "pool-history-swap-value" => replay_case(&poolprops::c03_hist(), case),
+        "pool-history-swap-conservation" => replay_case(&poolprops::c04_hist(), case),
+        "pool-history-quotes" => replay_case(&poolprops::c12_hist(), case),
+        "pool-history-immutability" => replay_case(&poolprops::c16_hist(), case),
+        "pool-history-rejections" => replay_case(&poolprops::c20_hist(), case),
+        "pool-history-all" => replay_case(&poolprops::all_hist(), case),
         _ => return None,
     })
 }
